@@ -1,23 +1,100 @@
 #!/usr/bin/env bash
-# Generates /verif/shadow/Cargo.toml from /repo/Cargo.toml: same package name and features, but
-# [lib] path points at /repo/src/lib.rs, simplicity-sys is referenced by absolute path, the
-# [workspace] section is removed, and the optional `shuttle` dependency is added behind the
-# feature `verif-shuttle`. /repo's own Cargo.toml and Cargo.lock stay untouched.
+# mkshadow.sh [rewrite|plain]
+# Generates /verif/shadow/Cargo.toml from /repo/Cargo.toml: same package name and features, the
+# [workspace] section removed, simplicity-sys referenced by absolute path, and the optional `shuttle`
+# dependency added behind the feature `verif-shuttle`. /repo's own Cargo.toml and Cargo.lock stay
+# untouched.
+#   plain   : [lib] path points at /repo/src/lib.rs (only the hand-twinned imports of the hook
+#             commit are owned by shuttle)
+#   rewrite : (default) /repo/src is copied to /verif/shadow/src and every use of
+#             std::sync::{Mutex, RwLock, Condvar, Once, Barrier, mpsc, atomic::*} and thread_local!
+#             in files that are not hand-twinned is textually redirected to shuttle's twins, so that
+#             synchronisation a change to /repo introduces with std primitives — in whatever file —
+#             has scheduling points too. The copy is regenerated from /repo's working tree on every
+#             check. `check` falls back to `plain` if the rewritten tree does not build.
 set -eu
 HERE="$(cd "$(dirname "${BASH_SOURCE[0]}")" && pwd)"
+MODE="${1:-rewrite}"
 mkdir -p "$HERE/shadow"
-python3 - "$HERE/shadow/Cargo.toml" <<'PY'
-import re, sys
+if [ "$MODE" = rewrite ]; then
+  mkdir -p "$HERE/shadow/src"
+  rsync -a --delete /repo/src/ "$HERE/shadow/src/"
+  LIBPATH="$HERE/shadow/src/lib.rs"
+else
+  rm -rf "$HERE/shadow/src"
+  LIBPATH="/repo/src/lib.rs"
+fi
+python3 - "$HERE/shadow/Cargo.toml" "$LIBPATH" "$MODE" "$HERE/shadow/src" <<'PY'
+import os, re, sys
+out, libpath, mode, srcdir = sys.argv[1:5]
 src = open('/repo/Cargo.toml').read()
 # drop the [workspace] section (up to the next top-level section)
 src = re.sub(r'(?ms)^\[workspace\].*?(?=^\[)', '', src)
-src = src.replace('path = "src/lib.rs"', 'path = "/repo/src/lib.rs"')
+src = src.replace('path = "src/lib.rs"', 'path = "%s"' % libpath)
 src = src.replace('path = "./simplicity-sys"', 'path = "/repo/simplicity-sys"')
 if 'verif-shuttle' not in src:
     sys.exit("HARNESS-ERROR: /repo/Cargo.toml does not declare the verif-shuttle feature (hook commit missing?)")
 # feature gains the dependency; dependency is optional
 src = re.sub(r'(?m)^verif-shuttle\s*=\s*\[(.*?)\]', lambda m: 'verif-shuttle = [%s, "dep:shuttle"]' % m.group(1), src)
 src = src.replace('[dependencies]\n', '[dependencies]\nshuttle = { version = "0.9.3", optional = true }\n', 1)
-# a build script or readme relative paths are not used by this package
-open(sys.argv[1], 'w').write(src)
+open(out, 'w').write(src)
+
+if mode != 'rewrite':
+    sys.exit(0)
+
+SYNC = {'Mutex', 'MutexGuard', 'RwLock', 'RwLockReadGuard', 'RwLockWriteGuard', 'Condvar', 'Once', 'Barrier', 'mpsc', 'atomic'}
+NAMES = 'Mutex|MutexGuard|RwLock|RwLockReadGuard|RwLockWriteGuard|Condvar|Once|Barrier|mpsc|atomic'
+
+def split_top(s):
+    items, depth, cur = [], 0, ''
+    for ch in s:
+        if ch == '{': depth += 1
+        if ch == '}': depth -= 1
+        if ch == ',' and depth == 0:
+            items.append(cur); cur = ''
+        else:
+            cur += ch
+    if cur.strip(): items.append(cur)
+    return [i.strip() for i in items if i.strip()]
+
+def head(item):
+    return re.split(r'[:\s{]', item.strip(), 1)[0]
+
+GROUP = re.compile(r'(?m)^([ \t]*)((?:pub(?:\([a-z:\s]+\))?\s+)?)use\s+std::sync::\{((?:[^{}]|\{[^{}]*\})*)\};')
+
+def rewrite(text):
+    def grp(m):
+        ind, vis, inner = m.group(1), m.group(2), m.group(3)
+        items = split_top(inner)
+        sh = [i for i in items if head(i) in SYNC]
+        st = [i for i in items if head(i) not in SYNC]
+        if not sh:
+            return m.group(0)
+        lines = []
+        if st:
+            lines.append('%s%suse std::sync::{%s};' % (ind, vis, ', '.join(st)))
+        lines.append('%s%suse shuttle::sync::{%s};' % (ind, vis, ', '.join(sh)))
+        return '\n'.join(lines)
+    text = GROUP.sub(grp, text)
+    text = re.sub(r'\b(?:::)?std::sync::(%s)\b' % NAMES, r'shuttle::sync::\1', text)
+    if 'use shuttle::thread_local' not in text:
+        text = re.sub(r'(?<![:\w])(?:std::)?thread_local!', 'shuttle::thread_local!', text)
+    return text
+
+n_files = n_changed = 0
+for root, _, files in os.walk(srcdir):
+    for f in files:
+        if not f.endswith('.rs'):
+            continue
+        p = os.path.join(root, f)
+        t = open(p).read()
+        n_files += 1
+        # hand-twinned files (hook commit) and the hook module itself stay as they are
+        if 'cfg(not(feature = "verif-shuttle"))' in t or p.endswith('/verif.rs'):
+            continue
+        t2 = rewrite(t)
+        if t2 != t:
+            open(p, 'w').write(t2)
+            n_changed += 1
+print("shadow sources: %d files, %d with std synchronisation redirected to shuttle" % (n_files, n_changed))
 PY
